@@ -485,6 +485,12 @@ func genC33(g *Gen) {
 		if allExt {
 			defects["ext_time_all_rows"] = true
 		}
+		// an extended (tuned) row followed later by a time field shorter than the tuned suffix
+		extShortAt := -1
+		if format == "lay" && nrows >= 2 && g.Intn(25) == 0 {
+			extShortAt = 1 + g.Intn(nrows-1)
+			defects["ext_then_short_time"] = true
+		}
 		malformed := g.Intn(100) < 40
 		recs := make([]string, 0, nrows+2)
 		cur = base
@@ -499,6 +505,12 @@ func genC33(g *Gen) {
 			ts := timeStr(i, cur)
 			if allExt {
 				ts = extTime(cur)
+			}
+			if extShortAt > 0 && i == 0 {
+				ts = cur.Format("20060102 15:04:05") + " 140000"
+			}
+			if i == extShortAt {
+				ts = []string{"2016", "", "x", "123456", "1234567"}[g.Intn(5)]
 			}
 			for ci, c := range cols {
 				switch {
